@@ -62,6 +62,26 @@ func VerifC05PartRanges() {
 	openEnded := verifBool("openEnded")
 	verifAssume(s >= 0)
 	br := storage.ByteRange{Start: &s}
+	if verifBool("wholeObject") {
+		// no Range header at all: the whole object, of any size including 0
+		stores, err := partstore.NewNamedPartStores(verifC05Store{}, nil, nil)
+		verifAssert(err == nil, "setup")
+		mbs := &metadataPartStorage{partStores: stores}
+		rc, rerr := mbs.createRangeReader(context.Background(), nil, obj, storage.ByteRange{})
+		verifAssert(rerr == nil, "C05: reading a whole object without a Range header failed (416 although no range was requested)")
+		if l, ok := rc.(*lazyPartSequenceReadCloser); ok {
+			var total int64
+			for _, pr := range l.parts {
+				verifAssert(pr.limit != nil && pr.skip == 0, "C05: whole-object read skips bytes")
+				total += *pr.limit
+			}
+			verifAssert(total == size, "C05: whole-object read does not cover the object")
+		} else {
+			verifAssert(size == 0, "C05: non-empty object read as empty")
+		}
+		verifCover("whole-object")
+		return
+	}
 	if openEnded {
 		e = size
 	} else {
